@@ -135,11 +135,11 @@ type proc struct {
 type state struct {
 	dual   bool
 	pre    pre
-	cache  [2]entry // P, Q
+	cache  [2]entry        // P, Q
 	closed map[string]byte // connection -> what closed it first: 'n' negotiation (or a reap it caused), 'l' stale reap (or a reap it caused)
-	p      [4]proc // Pc Qc Qd Pd
-	watch  [2]bool // close-watcher goroutine of the pre-existing connection e still waiting at P, Q
-	late   [2]bool // a stale reap may still run at P, Q
+	p      [4]proc         // Pc Qc Qd Pd
+	watch  [2]bool         // close-watcher goroutine of the pre-existing connection e still waiting at P, Q
+	late   [2]bool         // a stale reap may still run at P, Q
 }
 
 var procName = []string{"Pc", "Qc", "Qd", "Pd"}
@@ -491,7 +491,7 @@ func complete(st *state, steps []string) []string {
 
 func main() {
 	r := hlib.Start()
-	r.Rule = "table rows of the current reuse.go / reaper.go; sched = every interleaving of snapshot/decide/reap steps of one dial or two simultaneous dials from each of the 7 consistent pre-existing cache states (exhaustive), the same with one stale reap (second reapPeer of an older dead connection) at either side at every point of the schedule (exhaustive for one dial; for two dials exhaustive in the thorough tier, a seeded sample of the insertion points in the quick tier), plus random step sequences with repeated / disabled labels and stale reaps at both sides; non-trivial = distinct schedule"
+	r.Rule = "table rows of the current reuse.go / reaper.go; sched = every interleaving of snapshot/decide/reap steps of one dial or two simultaneous dials from each of the 7 consistent pre-existing cache states (exhaustive, schedule by schedule); the same with stale reaps (second reapPeer of an older dead connection) at every point of the schedule: one stale reap at either side schedule by schedule for one dial (and for two dials in the thorough tier), one stale reap and stale reaps at both sides state by state (every reachable final state reported once, with a seed-dependent schedule) for two dials; plus random step sequences with repeated / disabled labels and stale reaps at both sides; non-trivial = distinct schedule"
 	if err := loadTable(); err != nil {
 		// the decision code is no longer in the shape the extractor understands
 		r.Emit("table", "unreadable:"+strings.ReplaceAll(err.Error(), " ", "_"))
@@ -538,13 +538,22 @@ func main() {
 			dfs(r, dual, pr, initState(dual, pr, false, false), nil)
 		}
 	}
-	// one stale reap, at P or at Q, at every point of every interleaving
+	// stale reaps at every point of every interleaving.
+	// one dial: one stale reap at P or at Q, path by path; stale reaps at both sides, state by state.
+	// two dials: state by state (one stale reap, and stale reaps at both sides); thorough tier: one stale reap also
+	// path by path (a few million schedules).
 	for _, dual := range []bool{false, true} {
 		for _, pr := range preStates {
 			for side := 0; side < 2; side++ {
 				r.Raw("# case sched")
-				dfsLate(r, rng, dual, pr, initState(dual, pr, side == 0, side == 1), nil)
+				if !dual || r.Thorough() {
+					dfsLate(r, dual, pr, initState(dual, pr, side == 0, side == 1), nil, false)
+				} else {
+					reachLate(r, rng, dual, pr, initState(dual, pr, side == 0, side == 1), nil, false, map[string]bool{})
+				}
 			}
+			r.Raw("# case sched")
+			reachLate(r, rng, dual, pr, initState(dual, pr, true, true), nil, false, map[string]bool{})
 		}
 	}
 	// random label sequences, with repetitions and labels that are not enabled (the model skips them)
@@ -581,30 +590,60 @@ func main() {
 	r.Finish()
 }
 
-// the interleavings with one stale reap: as dfs, but only the final states that come after the stale reap are
-// reported (the others are those of the run without it). Thorough tier: exhaustive. Quick tier: exhaustive for one
-// dial; for two dials the stale reap is tried at a seeded sample of the nodes (always at the nodes where it finds a
-// connection cached that the other side caches too — there it matters most).
-func dfsLate(r *hlib.Run, rng *hlib.Rng, dual bool, pr pre, s *state, steps []string) {
-	lateDone := !s.late[0] && !s.late[1]
-	if lateDone && s.final() {
+// the full state as a key (everything the steps read)
+func (s *state) key() string {
+	k := s.String()
+	for i := 0; i < 4; i++ {
+		p := s.p[i]
+		k += fmt.Sprintf("|%d/%s/%s/%s", p.pc, entryTok(p.snap), p.status[0], p.status[1])
+	}
+	return k + fmt.Sprintf("|%v%v", s.watch, s.late)
+}
+
+// the interleavings with stale reaps, path by path: as dfs, but only the final states that come after a stale reap
+// are reported (the others are those of the run without it).
+func dfsLate(r *hlib.Run, dual bool, pr pre, s *state, steps []string, stale bool) {
+	if stale && s.final() {
 		emitSched(r, dual, pr, steps, s)
 	}
 	for _, l := range allLabels {
-		if !s.enabled(l) {
-			continue
+		if s.enabled(l) {
+			n := s.clone()
+			n.step(l)
+			dfsLate(r, dual, pr, n, append(append([]string{}, steps...), l.String()), stale || l.kind == 'l')
 		}
-		if l.kind == 'l' && dual && !r.Thorough() {
-			c := s.cache[l.i]
-			shared := c.conn != "" && s.cache[1-l.i].conn == c.conn
-			if !shared && !rng.Chance(lateSamplePct) {
-				continue
-			}
-		}
-		n := s.clone()
-		n.step(l)
-		dfsLate(r, rng, dual, pr, n, append(append([]string{}, steps...), l.String()))
 	}
 }
 
-var lateSamplePct = 100
+// the interleavings with stale reaps, state by state: every state that is reachable is visited once (the
+// steps, the finality of a state and the property depend on the state only), every FINAL state reached after a stale
+// reap is reported with the first schedule found for it. The order in which the enabled steps are tried is shuffled
+// by the seed, so different seeds report different schedules for the same states.
+func reachLate(r *hlib.Run, rng *hlib.Rng, dual bool, pr pre, s *state, steps []string, stale bool, seen map[string]bool) {
+	k := s.key()
+	if stale {
+		k += "|stale"
+	}
+	if seen[k] {
+		return
+	}
+	seen[k] = true
+	if stale && s.final() {
+		emitSched(r, dual, pr, steps, s)
+	}
+	var en []label
+	for _, l := range allLabels {
+		if s.enabled(l) {
+			en = append(en, l)
+		}
+	}
+	for i := len(en) - 1; i > 0; i-- {
+		j := rng.Intn(i + 1)
+		en[i], en[j] = en[j], en[i]
+	}
+	for _, l := range en {
+		n := s.clone()
+		n.step(l)
+		reachLate(r, rng, dual, pr, n, append(append([]string{}, steps...), l.String()), stale || l.kind == 'l', seen)
+	}
+}
